@@ -3,6 +3,7 @@
   resolution, second `Work::run`.
 -/
 import N2V.Lemmas.SchedWantInv
+import N2V.Lemmas.SchedAcct
 import N2V.Model.Run
 namespace N2V.Run
 open N2V N2V.Sched
@@ -252,5 +253,186 @@ theorem build_tinv {E : Type} {g : Graph} (gok : GraphOK g) (a : Args) (c : Choi
 theorem buildReloaded_tinv {E : Type} {g : Graph} (gok : GraphOK g) (a : Args) (c : Choices E) (e : E)
     (n0 : Nat) : TInv g a.par (shapeOf a) (buildReloaded g a c e n0).1 :=
   phase2_tinv gok a c _ _ _ _ n0 (fresh_inv g a) (fresh_tinv g a)
+
+/-! ### Accounting over a whole `run::build` -/
+
+/-- Everything a want phase guarantees about the state it ends in (`WRel` is transitive). -/
+def WRRel (g : Graph) (par : Nat) (s0 : S) : WR Unit → Prop
+  | .ok _ s => WRel g par s0 s
+  | .err _ s => WRel g par s0 s
+  | .bad _ => True
+
+theorem want_rel {g : Graph} {par : Nat} (gok : GraphOK g) (s : S) (f : Nat) (inv : Inv g par s) :
+    WRRel g par s (want g s f) := by
+  cases h : want g s f with
+  | ok u s' => exact want_inv gok s s' f inv h
+  | err m s' => exact want_inv_err gok s s' f m inv h
+  | bad m => trivial
+
+theorem wantAll_rel {g : Graph} {par : Nat} (gok : GraphOK g) (fs : List Nat) (s0 s : S)
+    (r0 : WRel g par s0 s) : WRRel g par s0 (wantAll g s fs) := by
+  induction fs generalizing s with
+  | nil => exact r0
+  | cons f fs ih =>
+    unfold wantAll
+    have hw := want_rel gok s f r0.inv
+    split
+    · rename_i s' h; rw [h] at hw; exact ih s' (r0.trans hw)
+    · rename_i r hne
+      cases h : want g s f with
+      | ok u s' => exact absurd h (hne u s')
+      | err m s' => rw [h] at hw; exact r0.trans hw
+      | bad m => trivial
+
+theorem wantTargets_rel {g : Graph} (a : Args) (gok : GraphOK g) (ns : List Bytes) (s0 s : S)
+    (r0 : WRel g a.par s0 s) : WRRel g a.par s0 (wantTargets g a s ns) := by
+  induction ns generalizing s with
+  | nil => exact r0
+  | cons n ns ih =>
+    unfold wantTargets
+    split
+    · split
+      · exact ih s r0
+      · exact r0
+    · split
+      · exact ih s r0
+      · rename_i t _ _
+        have hw := want_rel gok s t r0.inv
+        split
+        · rename_i s' h; rw [h] at hw; exact ih s' (r0.trans hw)
+        · rename_i r hne
+          cases h : want g s t with
+          | ok u s' => exact absurd h (hne u s')
+          | err m s' => rw [h] at hw; exact r0.trans hw
+          | bad m => trivial
+    · trivial
+    · trivial
+
+theorem fresh_ainv (a : Args) (hk : a.failuresLeft ≠ some 0) : AInv a.failuresLeft (fresh a) := by
+  refine ⟨rfl, rfl, ?_, rfl, rfl⟩
+  cases hf : a.failuresLeft with
+  | none => simp only []; show a.failuresLeft = none; exact hf
+  | some k0 =>
+    simp only []
+    refine ⟨?_, ?_⟩
+    · show a.failuresLeft = some (k0 - 0); rw [hf]; rfl
+    · show 0 < k0
+      rw [hf] at hk
+      cases k0 with
+      | zero => exact absurd rfl hk
+      | succ n => omega
+
+/-- What the accounting says about the end of one `Work`'s second phase. -/
+theorem phase2_acct {E : Type} {g : Graph} (gok : GraphOK g) (a : Args) (c : Choices E) (s2 : S) (e : E)
+    (perms : List (List Nat)) (fin : List (Nat × Term)) (n0 : Nat) (inv : Inv g a.par s2)
+    (ai : AInv a.failuresLeft s2) :
+    budgetTrace a.failuresLeft (phase2 g a c s2 e perms fin n0).1.trace = true ∧
+    (∀ n, (phase2 g a c s2 e perms fin n0).2.2 = .done n →
+      n = n0 + succs (sf (phase2 g a c s2 e perms fin n0).1.trace) ∧
+      fails (sf (phase2 g a c s2 e perms fin n0).1.trace) = 0 ∧
+      intr (sf (phase2 g a c s2 e perms fin n0).1.trace) = false) := by
+  unfold phase2
+  have hw : WRRel g a.par s2 (if !a.targets.isEmpty then wantTargets g a s2 a.targets
+      else if !a.defaults.isEmpty then wantAll g s2 a.defaults
+      else wantAll g s2 ((List.range g.nFiles).filter (· ≠ a.manifest))) := by
+    split
+    · exact wantTargets_rel a gok _ _ _ (WRel.refl inv)
+    · split
+      · exact wantAll_rel gok _ _ _ (WRel.refl inv)
+      · exact wantAll_rel gok _ _ _ (WRel.refl inv)
+  simp only []
+  generalize (if !a.targets.isEmpty then wantTargets g a s2 a.targets
+      else if !a.defaults.isEmpty then wantAll g s2 a.defaults
+      else wantAll g s2 ((List.range g.nFiles).filter (· ≠ a.manifest))) = w at hw ⊢
+  cases w with
+  | ok u s3 =>
+    simp only []
+    have a3 : AInv a.failuresLeft s3 := ai.of_frame hw.frm
+    have hr := runLoop_acct (g := g) (par := a.par) c (runFuel g) s3 e perms fin a3
+    cases hres : (runLoop g a.par c (runFuel g) s3 e perms fin).result with
+    | ok b =>
+      cases b with
+      | true =>
+        simp only []
+        refine ⟨hr.1, ?_⟩
+        intro n hn
+        have af := hr.2 hres
+        have h0 := (runLoop_ok_true g a.par c _ _ _ _ _ hres).1
+        cases hn
+        exact ⟨by rw [af.run], by rw [← af.failed]; exact h0, af.nointr⟩
+      | false => exact ⟨hr.1, fun n hn => by simp [ofRun] at hn⟩
+    | _ => exact ⟨hr.1, fun n hn => by simp [ofRun] at hn⟩
+  | err m s3 => exact ⟨(ai.of_frame hw.frm).bt, fun n hn => by cases hn⟩
+  | bad m => exact ⟨ai.bt, fun n hn => by cases hn⟩
+
+/-- **Accounting of a whole `run::build`** (for `-k N` with N ≥ 1, or no `-k` limit at all):
+    every command was started while fewer than N commands had failed and none had been
+    interrupted; `ran n tasks` (`.done n`) is reported only when no command failed or was
+    interrupted, and `n` is exactly the number of commands that completed successfully; a reload
+    happens exactly after a manifest phase that ran `n > 0` commands successfully. -/
+theorem build_acct {E : Type} {g : Graph} (gok : GraphOK g) (a : Args) (hk : a.failuresLeft ≠ some 0)
+    (c : Choices E) (e : E) :
+    budgetTrace a.failuresLeft (build g a c e).1.trace = true ∧
+    (∀ n, (build g a c e).2.2 = .done n →
+      n = succs (sf (build g a c e).1.trace) ∧ fails (sf (build g a c e).1.trace) = 0 ∧
+      intr (sf (build g a c e).1.trace) = false) ∧
+    (∀ n, (build g a c e).2.2 = .reload n → n = succs (sf (build g a c e).1.trace) ∧ n ≠ 0) := by
+  unfold build
+  simp only []
+  have hw := want_rel gok (fresh a) a.manifest (fresh_inv g a)
+  have a0 := fresh_ainv a hk
+  cases hwant : want g (fresh a) a.manifest with
+  | ok u s1 =>
+    rw [hwant] at hw
+    simp only []
+    have a1 : AInv a.failuresLeft s1 := a0.of_frame hw.frm
+    have hr := runLoop_acct (g := g) (par := a.par) c (runFuel g) s1 e c.perms c.finishes a1
+    cases hres : (runLoop g a.par c (runFuel g) s1 e c.perms c.finishes).result with
+    | ok b =>
+      cases b with
+      | true =>
+        simp only []
+        have af := hr.2 hres
+        have i1 := runLoop_inv c _ _ _ _ _ hw.inv hres
+        split
+        · rename_i hne
+          refine ⟨hr.1, (fun n hn => by cases hn), ?_⟩
+          intro n hn
+          cases hn
+          exact ⟨af.run, hne⟩
+        · rename_i h0
+          have h0' : (runLoop g a.par c (runFuel g) s1 e c.perms c.finishes).s.tasksRun = 0 := by
+            simpa using h0
+          have p2 := phase2_acct gok a c _ (runLoop g a.par c (runFuel g) s1 e c.perms c.finishes).e (runLoop g a.par c (runFuel g) s1 e c.perms c.finishes).perms
+            (runLoop g a.par c (runFuel g) s1 e c.perms c.finishes).finishes 0 i1 af
+          refine ⟨p2.1, ?_, ?_⟩
+          · intro n hn
+            have := p2.2 n hn
+            exact ⟨by omega, this.2⟩
+          · intro n hn
+            exfalso
+            revert hn
+            unfold phase2
+            simp only []
+            split
+            · split <;> simp [ofRun]
+              split <;> simp
+            · simp
+            · simp
+      | false => exact ⟨hr.1, (fun n hn => by simp [ofRun] at hn), (fun n hn => by simp [ofRun] at hn)⟩
+    | _ => exact ⟨hr.1, (fun n hn => by simp [ofRun] at hn), (fun n hn => by simp [ofRun] at hn)⟩
+  | err m s1 =>
+    rw [hwant] at hw
+    exact ⟨(a0.of_frame hw.frm).bt, (fun n hn => by cases hn), (fun n hn => by cases hn)⟩
+  | bad m => exact ⟨a0.bt, (fun n hn => by cases hn), (fun n hn => by cases hn)⟩
+
+theorem buildReloaded_acct {E : Type} {g : Graph} (gok : GraphOK g) (a : Args) (hk : a.failuresLeft ≠ some 0)
+    (c : Choices E) (e : E) (n0 : Nat) :
+    budgetTrace a.failuresLeft (buildReloaded g a c e n0).1.trace = true ∧
+    (∀ n, (buildReloaded g a c e n0).2.2 = .done n →
+      n = n0 + succs (sf (buildReloaded g a c e n0).1.trace) ∧
+      fails (sf (buildReloaded g a c e n0).1.trace) = 0 ∧
+      intr (sf (buildReloaded g a c e n0).1.trace) = false) :=
+  phase2_acct gok a c _ _ _ _ n0 (fresh_inv g a) (fresh_ainv a hk)
 
 end N2V.Run
